@@ -518,3 +518,10 @@ Proof.
   - rewrite A. simpl. assert (Rl : relevant j a = true) by (unfold relevant; rewrite A; auto).
     destruct (step_relevant j a s1 s2 Rl H) as (V & O). apply IHtr; auto.
 Qed.
+
+(* used by the Examples of props/C11.v: an early iterating consumer (0), a late one (1), a single
+   get (2) that is cancelled, close with pending messages *)
+Definition demo : list op :=
+  [Sub 0 Iter; Put 10; Sub 1 Iter; Sub 2 Single; Put 11; Fault 2; Resume 0; Put 12; Close;
+   Next 0; Resume 1; Resume 0; Next 1; Next 0; Resume 1; Resume 0; Next 0; Leave 1; Finalise 1].
+
